@@ -102,7 +102,7 @@ def prepare():
     def bad(x: Float[N, "a b"], y: Float[N, "a"]):
         return 0
 
-    _ANN.update(mm=mm, mm_b=mm_b, bad=bad)
+    _ANN.update(mm=mm, mm_b=mm_b, bad=bad, CTX=jaxtyped("context"))
     # warm caches (equinox / wadler_lindig imports happen in error paths)
     try:
         bad(real.np_array((2, 3)), real.np_array((4,)))
@@ -255,12 +255,21 @@ def op_toplevel_multi(k=0):
     )
 
 
+def op_shared_ctx(k=0):
+    """ONE `jaxtyped("context")` object used by every thread (a module-level constant in user code): each
+    `with` on it is a scope of the entering thread only, and once left the thread is stateless again"""
+    with _ANN["CTX"]:
+        inside = (real.check(A(2 + k), _ANN["f_a"]), real.check(A(3 + k), _ANN["f_a"]), real.check((1, (2, k)), _ANN["int_tree"]), real.check((1, 2), _ANN["int_tree"]), real.raw_transcript())
+    after = (real.check(A(7 + k), _ANN["f_a"]), real.check(A(8 + k), _ANN["f_a"]), real.check((1, 2, 3), _ANN["int_tree"]), real.raw_transcript())
+    return inside, after
+
+
 def pr_struct(k=0):
     return ctx(lambda: (real.check((1, 2), _ANN["int_tree"]), real.check((1, (2, 3)), _ANN["int_tree"]), real.raw_transcript()))
 
 
-OPS = {"qtree": op_qtree, "rollback": op_rollback, "call": op_call, "block": op_block, "tuptree": op_tuptree, "errmsg": op_error_message, "nested": op_nested, "fresh": op_fresh, "toplevel_multi": op_toplevel_multi}
-PROBES = {"fresh": op_fresh, "toplevel_multi": op_toplevel_multi, "wrong_dtype": pr_wrong_dtype, "question_outside": pr_question_outside, "same_name": pr_same_name, "toplevel": pr_toplevel, "struct": pr_struct, "call": op_call, "qtree": op_qtree, "nested": op_nested}
+OPS = {"qtree": op_qtree, "rollback": op_rollback, "call": op_call, "block": op_block, "tuptree": op_tuptree, "errmsg": op_error_message, "nested": op_nested, "fresh": op_fresh, "toplevel_multi": op_toplevel_multi, "shared_ctx": op_shared_ctx}
+PROBES = {"shared_ctx": op_shared_ctx, "fresh": op_fresh, "toplevel_multi": op_toplevel_multi, "wrong_dtype": pr_wrong_dtype, "question_outside": pr_question_outside, "same_name": pr_same_name, "toplevel": pr_toplevel, "struct": pr_struct, "call": op_call, "qtree": op_qtree, "nested": op_nested}
 ALL = dict(OPS, **{"pr_" + k: v for k, v in PROBES.items()})
 
 
